@@ -7,7 +7,7 @@ CONSTANTS
   AsmForms = FALSE
   DevsOn = {"ExternInheritsNoLinkage", "ThreadNoTentative", "ThreadMismatchNotDiagnosed", "InlineLateExternal", "NoUsedInternalUndefDiag"}
   OkPrefix = FALSE
-  SampleMod = 16
+  SampleMod = 32
   Emit = "all"
 INVARIANTS Inv_Refines Inv_OneDef Inv_ExportedExt Inv_FiredExplains Inv_Emit
 CHECK_DEADLOCK FALSE
